@@ -269,7 +269,11 @@ pub fn render_frag(r: &R, fr: FnRef, sel: &str, header: &str) -> Result<(String,
     if !missing.is_empty() {
         return Err(format!("lost anchor: fragment uses free variables {:?} that the header does not declare", missing));
     }
+    if let Some(sa) = r.opts.get("self_as") {
+        r.renames.borrow_mut().insert("self".into(), sa.to_string());
+    }
     let body = r.expr(frag);
+    r.renames.borrow_mut().remove("self");
     r.note(format!("fragment `{}` lifted to a function (parameters = free variables, checked)", sel));
     let mut s = String::new();
     s.push_str(header.trim_end());
